@@ -38,7 +38,7 @@ ASSUMPTIONS = [
     "the deciding run is single-threaded; the thread stress explores interleavings by "
     "yielding, it does not enumerate them",
 ]
-TECHNIQUE = "history monitor: recorded read/construct histories on shared arguments vs a pristine per-entry table; mutation audit; thread stress with yield injection (thorough)"
+TECHNIQUE = "history monitor: recorded read/construct histories on shared arguments vs a pristine per-entry table (raising reads repeated); mutation audit; invariants at hooks (memo slots named after their lazy property, icontract on the shared dimension dict); thread stress with yield injection (both tiers)"
 DESIGN_REF = "DESIGN.md 4 C18; 2.4(d)(e)"
 REQUIRED_REACH = {
     "quick": ["history_read", "reread", "construct_shared", "envelope_equivalence", "thread_read",
